@@ -1118,6 +1118,24 @@ def plant(rng, u, kind):
         u.items.append(it)
         build["items"].append(len(u.items) - 1)
         return "second value for %s" % (it["outs"],)
+    if kind == "dupunexp":
+        # two sources of one type, one of which the injector's package could not even name: an unexported provider function in a
+        # set of a library package, and a value of the same type given directly to wire.Build.  Still ambiguous.
+        if getattr(u, "shadow", False) or any(getattr(o, "twin_of", None) is u for o in u.prog.units):
+            return None
+        for st in u.sets:
+            if st["build"] or st["pkg"] == u.inj["pkg"]:
+                continue
+            cands = [n for n in st["items"] if n in used_items and u.items[n]["kind"] == "func" and u.items[n]["pkg"] == st["pkg"]
+                     and u.items[n]["outs"][0][0] in ("v", "p")]
+            if cands:
+                n = rng.choice(cands)
+                u.items[n]["fn"] = "prov%d" % u.items[n]["id"]
+                t = u.items[n]["outs"][0]
+                u.items.append({"kind": "value", "outs": [t], "deps": [], "pkg": "app", "id": max(x["id"] for x in u.items) + 470})
+                build["items"].append(len(u.items) - 1)
+                return "provider %s of package %s is unexported, and wire.Build lists a value of the same type %s" % (u.items[n]["fn"], st["pkg"], t)
+        return None
     if kind == "duparg":
         # an injector parameter of a type that a used item of the build set (possibly nested) provides as well; the parameter is
         # mostly blank-named (`_ T`), which is legal and must not exempt it from the ambiguity check
